@@ -12,7 +12,7 @@ CONSTANTS MaxP, MaxT
 
 Seqs(A, n) == UNION {[1..k -> A] : k \in 0..n}
 PatAlpha == {97, 98, 45, 65, Star, Quest}            \* a b - A * ?
-TextAlpha == {97, 98, 95, 45, 32, 10, 233, 65}        \* a b _ - space newline e-acute A
+TextAlpha == {97, 98, 95, 45, 32, 10, 233, 65, Star}  \* a b _ - space newline e-acute A *
 
 \* ---- tagged JSON values, one shape
 JStr(s) == [t |-> "str", mem |-> <<>>, s |-> s, n |-> 0, b |-> FALSE, items |-> <<>>]
@@ -67,6 +67,8 @@ Next == /\ phase = 0 /\ phase' = 1 /\ UNCHANGED <<part, a>>
 ThmPathsUnique == (phase = 1 /\ part = "flat") => PathsUnique(b)
 \* a literal pattern matches as a word whenever it matches the whole value
 ThmWholeImpliesWord == (phase = 1 /\ part = "glob" /\ a # <<>> /\ Glob(a, b)) => WordStrict(a, b)
+\* a name without wildcard characters is found exactly where the same literal pattern is found
+ThmNameIsLiteralPattern == (phase = 1 /\ part \in {"glob", "lit"} /\ ~HasWildcard(a)) => DisplayNameVerdict(a, b) = WordVerdict(a, b)
 \* strict reading implies liberal reading (the three-valued verdict is well defined)
 ThmStrictLiberal == (phase = 1 /\ part \in {"glob", "lit"}) => (WordStrict(a, b) => WordLiberal(a, b))
 \* a disabled or non-matching rule is never selected; own events match nothing
@@ -103,7 +105,7 @@ FlatCase ==
 Emit == phase = 1 =>
   PrintT(<<"CASE", ToJson(
      CASE part \in {"glob", "lit"} -> [part |-> "glob", p |-> a, t |-> b, whole |-> Glob(a, b), word |-> WordVerdict(a, b),
-                            lit |-> ~HasWildcard(a)]
+                            lit |-> ~HasWildcard(a), dn |-> DisplayNameVerdict(a, b)]
        [] part = "prio" -> [part |-> "prio", own |-> a, rules |-> b, exp |-> PrioExpected]
        [] part = "flat" -> FlatCase
        [] part = "count" -> [part |-> "count", op |-> a, n |-> b[1], count |-> b[2], exp |-> CountIs(a, b[1], b[2])])>>)
